@@ -97,25 +97,47 @@ ElemFallback::~ElemFallback()
 
 
 #if !defined(XALAN_RECURSIVE_STYLESHEET_EXECUTION)
+bool
+ElemFallback::isInstantiated() const
+{
+    const int   parentXSLToken =
+        getParentNodeElem()->getXSLToken();
+
+    return parentXSLToken == StylesheetConstructionContext::ELEMNAME_FORWARD_COMPATIBLE ||
+           parentXSLToken == StylesheetConstructionContext::ELEMNAME_EXTENSION_CALL;
+}
+
+
+
 const ElemTemplateElement*
 ElemFallback::startElement(StylesheetExecutionContext&      executionContext) const
 {
     ElemTemplateElement::startElement(executionContext);
 
-    return beginExecuteChildren(executionContext);
+    // Whatever beginExecuteChildren() pushes (the frame for variables, or
+    // the invoker and context marker of a directly executed named template)
+    // is popped by endExecuteChildren() in endElement().
+    return isInstantiated() == true ? beginExecuteChildren(executionContext) : 0;
 }
 
 
-    
+
+void
+ElemFallback::endElement(StylesheetExecutionContext&        executionContext) const
+{
+    if (isInstantiated() == true)
+    {
+        endExecuteChildren(executionContext);
+    }
+}
+
+
+
 const ElemTemplateElement*
 ElemFallback::getFirstChildElemToExecute(
             StylesheetExecutionContext& executionContext) const
 {
-    const int   parentXSLToken =
-        getParentNodeElem()->getXSLToken();
-
-    if (parentXSLToken == StylesheetConstructionContext::ELEMNAME_FORWARD_COMPATIBLE ||
-        parentXSLToken == StylesheetConstructionContext::ELEMNAME_EXTENSION_CALL)
+    if (isInstantiated() == true)
     {
         return ParentType::getFirstChildElemToExecute(executionContext);
     }
@@ -131,6 +153,15 @@ const ElemTemplateElement*
 ElemFallback::getNextChildElemToExecute(StylesheetExecutionContext& /*executionContext*/,
                                  const ElemTemplateElement*         currentElem) const
 {
+    // When the only child is an xsl:call-template without parameters, the
+    // named template is executed directly and currentElem is that template:
+    // its siblings are the other top-level elements of the stylesheet, not
+    // children of this element.
+    if (hasDirectTemplate() == true)
+    {
+        return 0;
+    }
+
     const ElemTemplateElement* previousElement = currentElem;
 
     const ElemTemplateElement* nextElement = currentElem->getNextSiblingElem();
